@@ -14,6 +14,21 @@ pub const FAMS: [&str; 5] = ["auto-version-every-length", "forced-at-threshold",
 
 const MAX_LEN: usize = 7200;
 
+/// valid UTF-8 with non-ASCII characters, exactly `len` bytes
+fn utf8_of_len(len: usize, k: u64) -> Vec<u8> {
+    let units: [&str; 4] = ["\u{e9}", "\u{65e5}", "\u{df}", "\u{4e2d}"];
+    let mut s = String::with_capacity(len + 4);
+    let mut i = k as usize;
+    while s.len() + 3 <= len {
+        s.push_str(units[i % 4]);
+        i += 1;
+    }
+    while s.len() < len {
+        s.push('a');
+    }
+    s.into_bytes()
+}
+
 pub fn jobs(ctx: &Ctx) -> Vec<Job> {
     let caps = &ctx.caps;
     let mut jobs = Vec::new();
@@ -30,6 +45,9 @@ pub fn jobs(ctx: &Ctx) -> Vec<Job> {
             len,
             gen: if *k % 5 == 0 { GEN_RANDOM } else { GEN_RAMP },
             seed: mix(ctx.seed, *k),
+            // byte-class payloads are, every seventh time, valid UTF-8 text with non-ASCII characters of exactly this
+            // many bytes (two- and three-byte characters, padded with a letter): content a text layer might treat specially
+            payload: if class == 2 && *k % 7 == 3 && len >= 2 { Some(utf8_of_len(len, *k)) } else { None },
             ..Default::default()
         }
     };
